@@ -135,6 +135,22 @@ def oracle(ctx, deep):
                                           "what": f"{nm} from rest does not reproduce the laminar solution of the documented forcing (L={L:.4g}, N={N}, m={m}, order={order}, dt={dt}, steps={steps}): {r}",
                                           "probe": "laminar", "args": {"dim": dim, "L": L, "N": N, "m": m, "gamma": gamma, "nu": nu, "drag": drag,
                                                                         "order": order, "dt": dt, "steps": steps, "general": general}, "observed": r})
+    # injection at the highest wavenumber the grid resolves below Nyquist, (N-1)//2 (odd N: the last stored mode of the
+    # half axis, whose coefficient-extraction scaling is N/2 like every other non-zero mode)
+    for N in ([9, 8] if not deep else [7, 8, 9, 11, 12, 13]):
+        for general in (False, True):
+            for L in ([2 * np.pi, 3.7] if not deep else Ls):
+                m = (N - 1) // 2
+                gamma, nu, drag = float(rng.uniform(0.3, 1.5)) * (1 if rng.uniform() < 0.7 else -1), float(rng.uniform(0.005, 0.05)), float(rng.uniform(-0.2, -0.01))
+                order, dt, steps = int(rng.integers(1, 5)), float(rng.choice([0.01, 0.1])), int(rng.integers(1, 4))
+                r = probe_laminar(2, L, N, m, gamma, nu, drag, order, dt, steps, general, 1.0)
+                ctx.count(("oracle_laminar_topmode", N, general))
+                if not r["ok"]:
+                    nm = "GeneralVorticityConvectionStepper" if general else "KolmogorovFlowVorticity"
+                    fails.append({"key": f"C12:laminar-topmode:{nm}",
+                                  "what": f"{nm} from rest, forced at the highest resolved wavenumber m={(N - 1) // 2} of N={N}, does not reproduce the laminar solution (L={L:.4g}, order={order}, dt={dt}, steps={steps}): {r}",
+                                  "probe": "laminar", "args": {"dim": 2, "L": L, "N": N, "m": m, "gamma": gamma, "nu": nu, "drag": drag,
+                                                                "order": order, "dt": dt, "steps": steps, "general": general}, "observed": r})
     r = probe_forced(ctx.seed)
     if not r["ok"]:
         fails.append({"key": "C12:forced-stepper", "what": f"ForcedStepper contract broken: {r}", "probe": "forced", "args": {"seed": ctx.seed}, "observed": r})
